@@ -162,7 +162,7 @@ func (c15) Gen(r *rand.Rand, tier string, idx int) *core.Plan {
 		case x < 18:
 			p.Ops = append(p.Ops, core.Op{Task: 1, Kind: "sleep", I: []int64{int64(time.Duration(1+r.IntN(5000)) * time.Millisecond)}})
 		default:
-			p.Ops = append(p.Ops, core.Op{Task: 1, Kind: "corrupt", S: []string{core.Pick(r, "truncate", "empty", "foreign", "null", "garbage", "flip", "swap", "zero", "delta-garbage", "base-garbage", "delta-garbage")}, I: []int64{u(), int64(r.IntN(1001)), int64(r.IntN(8))}})
+			p.Ops = append(p.Ops, core.Op{Task: 1, Kind: "corrupt", S: []string{core.Pick(r, "truncate", "empty", "foreign", "null", "garbage", "flip", "swap", "zero", "delta-garbage", "base-garbage", "delta-garbage", "trailing-garbage", "trailing-entry", "trailing-foreign")}, I: []int64{u(), int64(r.IntN(1001)), int64(r.IntN(8))}})
 			p.Ops = append(p.Ops, core.Op{Task: 1, Kind: "get", I: []int64{p.Ops[len(p.Ops)-1].Int(0)}})
 		}
 	}
@@ -480,6 +480,14 @@ func (l c15) Exec(env *core.Env) *core.Result {
 					b = bytes.Repeat([]byte{0xfe, 0x00, 0x7f}, 50)
 				case "zero":
 					b = make([]byte, len(b))
+				case "trailing-garbage":
+					// a well-formed entry followed by bytes that belong to no entry: the file as a whole is not one
+					b = append(append([]byte{}, b...), []byte("\n}} left over from something else {{\n")...)
+				case "trailing-entry":
+					// two entries in one file (an append instead of a replace)
+					b = append(append(append([]byte{}, b...), '\n'), b...)
+				case "trailing-foreign":
+					b = append(append([]byte{}, b...), []byte(`{"foo":"bar"}`)...)
 				case "delta-garbage", "base-garbage":
 					// replace the encoded DER of one CRL inside the entry by bytes that are not a CRL
 					// (located by content, not by field name); only on a clean entry whose content is known
